@@ -109,10 +109,19 @@ func (c *AdminOP)SetState(s StateDB){
 
 func (c *AdminOP) Run(input []byte) ([]byte, error) {
 	//[$len + $arg]
-	dlen := new(big.Int).SetBytes(input[:32]).Uint64()
-	offset := dlen + 32
-	if int(offset) > len(input) {
-		offset = uint64(len(input))
+	// Anybody can call this address with any input: a short input, a length word below the 20
+	// bytes of the sender, or one so large that the offset wraps must fail the call, not panic
+	// the node that executes the block.
+	const head = 32 + 20
+	if len(input) < head {
+		return nil, fmt.Errorf("admin input too short: %d bytes", len(input))
+	}
+	offset := uint64(len(input))
+	if dlen := new(big.Int).SetBytes(input[:32]); dlen.IsUint64() && dlen.Uint64() < offset-32 {
+		offset = dlen.Uint64() + 32
+	}
+	if offset < head {
+		return nil, fmt.Errorf("admin input length word too small")
 	}
 	from := input[32:32+20]
 	data := input[32+20:offset]
